@@ -7,7 +7,7 @@ import (
 )
 
 func init() {
-	probeNames["C11"] = []string{"conservation_checked", "probe_zero", "commit_ok", "tx_aborted", "commit_failed", "out_of_memory", "reopen", "meta_grew", "file_full_cycle", "prealloc", "continued_after_crash_recovery"}
+	probeNames["C11"] = []string{"conservation_checked", "probe_zero", "commit_ok", "tx_aborted", "commit_failed", "out_of_memory", "reopen", "meta_grew", "file_full_cycle", "prealloc", "continued_after_crash_recovery", "big_free_region_preset"}
 	register(&PropDef{
 		ID: "C11", Level: "exploration", QuickSec: 50, ThoroSec: 900,
 		Rule: "each run = one long seeded alloc/free history (20-150 transactions quick, up to 600 thorough; fill-to-out-of-space and free cycles, rollbacks, failed commits, overwrites, reopen) on a size-bounded configuration (max size, page size, init meta area, prealloc) on which no transaction enables the overflow area. At every quiescent point: capacity probe (allocate one page at a time until OutOfMemory, roll back) + live pages (model) + meta area + 2 header pages == max pages; the allocator snapshot covers [2,end) without gaps (no leaked page) and meta accounting adds up; the simulated file never exceeded max size; FileStats (DataAllocated, MetaArea, MetaAllocated) equal model/snapshot, also right after reopen. Non-trivial = run that reached out-of-space at least once and continued; distinct = op list + config + schedule hash.",
@@ -84,6 +84,15 @@ func c11Body(e *Env) {
 	rng := e.Rng("c11")
 	probeRng := e.Rng("c11probe")
 	everOOM := false
+	if c.Cfg == nil && rng.Intn(12) == 0 {
+		// free regions of 254..260 pages (escape encoding threshold of the free list) and a reopen
+		cfg := DrawCfg(e.Rng("cfg"), 1)
+		cfg.PageSize, cfg.MaxSize, cfg.Overflow, cfg.Variant = 1024, 512<<10, false, 2
+		cfg.NTx = 6
+		c.Cfg = &cfg
+		c.Tasks = map[string][]Op{"main": append(c10Preset(Cfg{Variant: 2}, rng)[:0:0], append(presetNoReopenB(c10Preset(Cfg{Variant: 2}, rng)), Op{K: "reopen"}, Op{K: "begin"}, Op{K: "allocn", A: 40}, Op{K: "commit"}, Op{K: "reopen"})...)}
+		e.Probe("big_free_region_preset")
+	}
 	r := txWorkload(e, 1, func(r *Runner, g *Gen) {
 		if !c.Explicit {
 			c.Cfg.Overflow = false
@@ -195,4 +204,15 @@ func c11Body(e *Env) {
 	r.Close()
 	e.Res.Sig = sigOf(r, uint64(c.Cfg.PageSize), uint64(c.Cfg.MaxSize), uint64(c.Cfg.InitMeta))
 	e.Res.Nontrivial = everOOM
+}
+
+// presetNoReopenB drops the twin-only "reopenB" operations of a C10 preset.
+func presetNoReopenB(ops []Op) []Op {
+	var out []Op
+	for _, op := range ops {
+		if op.K != "reopenB" {
+			out = append(out, op)
+		}
+	}
+	return out
 }
